@@ -60,8 +60,11 @@ def judge(ctx, case, fam="?"):
         else:
             got = h5.parse_doc(data, kind="etree-full", scripting=scr)[0]
     except Exception as e:
+        # no tree at all: the input has a tree under the standard's algorithm, so this is a violation here as well as of C03
         ctx.count("parse_raised")
         ctx.add("parse_exceptions", type(e).__name__)
+        ctx.case([data, cont, scr], nontrivial=True)
+        ctx.violation("parse-raised:" + type(e).__name__, case, "%s: %s" % (type(e).__name__, short(str(e), 200)))
         return
     # "a function of the input and the documented options alone": the same call on a long-lived parser object
     try:
@@ -202,6 +205,10 @@ def limits_family():
             out.append(("<%s>" % f) * n + "<p>x</p>y")
             out.append("<p>" + ("<%s>" % f) * n + "x</p>y</%s>z" % nm)
         out.append("<table>" * n + "x" + "</table>" * n + "y")
+        # Noah's Ark counts only after the last marker: identical formatting elements on both sides of a marker
+        for mk in ("<table><tr><td>", "<applet>", "<marquee>", "<object>", "<table><caption>"):
+            out.append("<p>" + "<b>" * n + mk + "<b>x</b>" + "</p>z")
+            out.append("<p>" + "<b>" * n + mk + "<b><b><b><b>x" + "</p>z</b>w")
         out.append("<ul><li>" * n + "x</li>y")
         out.append("<dl><dd>" * n + "<dt>x")
         out.append("<ruby>" + "<rb><rt>" * n + "x</ruby>y")
@@ -230,7 +237,7 @@ def probes():
         out.append("<%s>" % nm)
         out.append("</%s>" % nm)
     out += ["<input type=hidden>", "<input type=HIDDEN>", "<input type=text>", "<font color=x>", "<font size=1>", "<font x=y>", "<a href=x>", "<b id=1>",
-            "<br/>", "<svg/>", "<math/>", "<g/>", "<annotation-xml encoding=TEXT/HTML>", "<annotation-xml encoding=x>", "<html lang=en>", "<body class=c>",
+            "<font face=x>", "<font COLOR=x>", "<font color>", "<br/>", "<svg/>", "<math/>", "<g/>", "<annotation-xml encoding=TEXT/HTML>", "<annotation-xml encoding=x>", "<html lang=en>", "<body class=c>",
             "<mglyph>", "<malignmark>", "<img>", "<image>", "</br>", "</p>", "<td>", "<th>", "<tr>", "<caption>", "<col>", "<colgroup>", "<tbody>", "<tfoot>", "<thead>"]
     return out
 
